@@ -379,6 +379,23 @@ def native_C20(tier, seed):
                 fails.append({"id": f"C20-smc-{sd}-{nf}", "obligation": "C20", "what": f"two SMC runs with the same generators differ (n_final_samples={nf})", "input": {"seed": sd, "n_final_samples": nf}})
             if not r1[3]:
                 fails.append({"id": f"C20-smc-rng-identity-{sd}-{nf}", "obligation": "C20:a generator passed to sample()", "what": "the generator passed to sample() is not the one the sampler holds", "input": {"seed": sd}})
+    # the *same* dictionary of kernel settings passed to two runs (as a caller who keeps the arguments in a variable does - e.g. to call again after a crash)
+    for sd in ([seed] if tier == "quick" else range(seed, seed + 3)):
+        cases += 1
+        shared = {"n_steps": 2, "n_final_steps": 5}
+        before = dict(shared)
+        outs = []
+        for _ in range(2):
+            pr = S.Problem(dims=2, scale=5.0, seed=sd)
+            s = pr.sampler(rng_seed=sd)
+            out = s.sample(24, rng=np.random.default_rng(sd + 7), n_steps=3, adaptive=False, n_final_samples=40, sampler_kwargs=shared)
+            outs.append((np.asarray(out.x).tobytes(), float(out.log_evidence)))
+        if shared != before:
+            fails.append({"id": f"C20-shared-kwargs-mutated-{sd}", "obligation": "C20:C11:the caller's sampler_kwargs dictionary is left as it was passed",
+                          "what": f"sample() changed the caller's sampler_kwargs dictionary from {before} to {shared}", "input": {"seed": sd, "sampler_kwargs": before}})
+        if outs[0] != outs[1]:
+            fails.append({"id": f"C20-shared-kwargs-{sd}", "obligation": "C20:C11:the caller's sampler_kwargs dictionary is left as it was passed",
+                          "what": "two runs given the same generators and the same sampler_kwargs dictionary object differ (the first run removed n_final_steps from it)", "input": {"seed": sd, "sampler_kwargs": before}})
     # flow construction + training + importance sampling, zuko
     def run_flow(sd):
         a = mk(seed=sd)
